@@ -86,6 +86,48 @@ Theorem C36_batch_size_source : forall len nc,
 Proof. exact raw_batch_size_model. Qed.
 Print Assumptions C36_batch_size_source.
 
+(* Faults on the read path (a sub-chunk's iterator stops with an error, e.g. truncated bytes).
+   [read_f] models chunkSeriesIterator over chunk iterators given as (samples yielded before
+   ValNone, Err() <> nil).  An error in ANY chunk is reported by the series iterator ... *)
+Theorem C36_read_error_reported : forall chunks bound,
+  Exists (fun c : list (Z * Z) * bool => snd c = true) chunks -> snd (read_f chunks bound) = true.
+Proof. exact read_f_error_reported. Qed.
+Print Assumptions C36_read_error_reported.
+
+(* ... and no sample of a later chunk is yielded after the failing chunk: the chunks after
+   it do not influence the read at all. *)
+Theorem C36_read_stops_at_error : forall pre l post bound,
+  Forall (fun c : list (Z * Z) * bool => snd c = false) pre ->
+  read_f (pre ++ (l, true) :: post) bound = read_f (pre ++ [(l, true)]) bound.
+Proof. exact read_f_stops_at_error. Qed.
+Print Assumptions C36_read_stops_at_error.
+
+(* The fault clause of the check's predicate holds of the model for EVERY list of chunk
+   iterators: an error of any of them is reported; if none fails and what they yield is
+   time-ordered, exactly their samples are read, without error — never fewer samples with a
+   nil error.  (Stated on what the sub-chunk iterators report: the third-party XOR decoder
+   may also decode truncated bytes to wrong values WITHOUT an error, which no series
+   iterator can notice.) *)
+Theorem C36_read_fault_pred : forall chunks orig,
+  pred_ok (CFault chunks orig (fst (read_faulty chunks)) (snd (read_faulty chunks))) = true.
+Proof. exact fault_pred. Qed.
+Print Assumptions C36_read_fault_pred.
+
+(* For the aggregates DownsampleRaw writes (count, sum, min or max), whichever sub-chunk
+   iterators fail and whatever they yield before failing: the read-back reports an error or
+   is exactly the aggregate's values. *)
+Theorem C36_read_values_or_error : forall res num_chunks data (f : achunk -> option (list (Z * Z))),
+  (f = k_count \/ f = k_sum \/ f = k_min \/ f = k_max) ->
+  valid_raw res data ->
+  exists out, downsample_raw_m res num_chunks data = Some out /\
+    forall chunks,
+      Forall2 (fun o (c : list (Z * Z) * bool) => snd c = true \/ c = (o, false))
+              (map (fun c => olist (f c)) out) chunks ->
+      snd (read_faulty chunks) = true \/
+      fst (read_faulty chunks) = concat (map (fun c => olist (f c)) out).
+Proof. exact raw_fault. Qed.
+Print Assumptions C36_read_values_or_error.
+
 (* Tie T for the read-back: the aggregates the querier selects (aggrsFromFunc, evaluated on
    the linked code into Gen/C36.v) for count_over_time / sum_over_time / min_over_time /
    max_over_time are COUNT / SUM / MIN / MAX; [readbacks] (used in C36_query_readback and
